@@ -159,6 +159,9 @@ def run(chk):
     clones.rule_clones(chk, 'N1', floor=100)
     clones.rule_const_width(chk, 'N2', floor=100)
     clones.rule_tables(chk, 'N5', None, floor=1000)
+    from . import twins
+    twins.rule_twin_arms(chk, P, 'X2', floor=20)
+    twins.rule_common_flag(chk, P, 'Z1', floor=6)
     run_r4(chk, P)
     # R3b shared with C20
     from . import c20
